@@ -324,6 +324,8 @@ class Pattern(Interp):
     def h_unary(self, op, v, n, ctx):
         v = flat(v) if not isinstance(v, PV) else v
         if isinstance(op, ast.Not):
+            if v.lvl == CLEAN and isinstance(v.const, bool):
+                return PV(CLEAN, const=not v.const)
             t = self.truth(v, n, ctx)
             return PV(t.lvl, t.prov, ref=frozenset((nm, not pol) for nm, pol in v.ref))
         if isinstance(op, ast.USub):
@@ -445,6 +447,11 @@ class Pattern(Interp):
 
     def h_fstring(self, vals, n, ctx):
         return PV()
+
+    def literal_truth(self, tv, test):
+        if isinstance(tv, PV) and tv.lvl == CLEAN and isinstance(tv.const, bool) and not isinstance(test, ast.Constant):
+            return tv.const
+        return None
 
     def h_test(self, tv, test, kind, env, ctx):
         if kind == "for":
